@@ -277,7 +277,7 @@ theorem written_prog : prune (prog writtenPath) =
      (3, .default_, .none_), (4, .stmt, .wrGrapheme)] := by
   decide +kernel
 
-theorem lpField_cut' (s : String) :
+theorem lpField_cut_if (s : String) :
     lpField s = (if (semiIndexL s.toList).isSome = true then takeBytes ((semiIndexL s.toList).getD 0) s else s) := by
   rw [lpField_cut]
   cases semiIndexL s.toList with
@@ -324,7 +324,7 @@ theorem written_out (cw : String → Nat) (caps : Caps) (st : RSt) (m l : Cell) 
     simp [exec, execArms, evalG, evalS, List.dropWhile, List.takeWhile, apply_ite Env.cont, apply_ite Env.ret, apply_ite Env.unknown,
       apply_ite Env.reposition, apply_ite Env.lastSet, apply_ite Env.dirty, apply_ite Env.out, apply_ite Env.cursor, apply_ite Env.next,
       apply_ite Env.link, apply_ite Env.linkPs, apply_ite Env.idx, apply_ite Env.endv, apply_ite Env.col, apply_ite Env.row,
-      hrep, hk, hw, VaxisModel.Lemmas.RenderDisplay.cellToks, penDelta, glyphTok, glyphTokW, resolvedW, lpField_cut', ite_append_right,
+      hrep, hk, hw, VaxisModel.Lemmas.RenderDisplay.cellToks, penDelta, glyphTok, glyphTokW, resolvedW, lpField_cut_if, ite_append_right,
       ite_singleton, ite_cons_right]
   all_goals (split <;> simp)
 
